@@ -172,6 +172,14 @@ psRes_t psVerifySig(psPool_t *pool,
         break;
 #  ifdef USE_ED25519
     case PS_ED25519:
+        /* psEd25519Verify reads exactly 64 signature bytes; sigLen comes
+           from the peer (e.g. TLS 1.3 CertificateVerify). */
+        if (sigLen != 64)
+        {
+            psTraceCrypto("Ed25519 signature has wrong length\n");
+            rc = PS_VERIFICATION_FAILED;
+            goto out;
+        }
         rc = psEd25519Verify(sig,
                 msgIn,
                 msgInLen,
